@@ -52,6 +52,24 @@ def post_state(sr, p, pe, scn, conc):
 
     ex = p.ex
     out = {"storage": {}, "transient": {}, "balances": {}, "codes": {}}
+    # The reads below go through halmos' own accessors (sload / balance_of), whose array simplification (`Exec.select`)
+    # asks the path's solver -- but sibling paths share one solver object, which after the run holds the constraints of
+    # whichever path was active last. Answer `unknown` to every such query here: `select` then returns the plain
+    # Select(array, key) term, which the evaluator resolves exactly from the array definitions in the path conditions.
+    import halmos.sevm as S
+
+    orig_check = S.Exec.check
+    S.Exec.check = lambda self, cond: z3.unknown
+    try:
+        return _post_state(sr, ex, pe, conc, out)
+    finally:
+        S.Exec.check = orig_check
+
+
+def _post_state(sr, ex, pe, conc, out):
+    from halmos.bitvec import HalmosBitVec as BV
+    from halmos.sevm import con_addr
+
     for (a, slot) in conc.storage:
         addr = con_addr(a)
         if slot >= PLAIN_SLOT_LIMIT:
@@ -70,6 +88,28 @@ def post_state(sr, p, pe, scn, conc):
         if z3.is_bv_value(addr):
             out["codes"][addr.as_long()] = pe.bytes_of(c._code)
     return out
+
+
+def calls_precompile(ex) -> bool:
+    """does the path's call trace contain a message to a precompile address (1..10)? The reference EVM has no
+    precompiles (DESIGN: Cancun minus precompiles), so such a path has no reference behaviour to be compared with."""
+    from halmos.sevm import CallContext
+
+    todo = [ex.context]
+    while todo:
+        c = todo.pop()
+        for t in c.trace:
+            if isinstance(t, CallContext):
+                tgt = t.message.target
+                v = tgt.value if hasattr(tgt, "value") else tgt
+                try:
+                    n = v if isinstance(v, int) else (v.as_long() if z3.is_bv_value(v) else None)
+                except Exception:  # noqa: BLE001
+                    n = None
+                if n is not None and 1 <= n <= 10:
+                    return True
+                todo.append(t)
+    return False
 
 
 def compare_scenario(ctx, pid, scn, sr, inputs_list, concs, report):
@@ -129,6 +169,9 @@ def compare_scenario(ctx, pid, scn, sr, inputs_list, concs, report):
         for j, p, pe in covering:
             if p.kind.startswith("stuck:"):
                 ctx.count("covered-by-stuck")
+                continue
+            if calls_precompile(p.ex):
+                ctx.count("covered-by-path-calling-a-precompile(not compared)")
                 continue
             ctx.count("path-checked:" + p.kind)
             # --- C01: the reported end state is what the EVM does
